@@ -500,13 +500,15 @@ def c06(run):
 # ---------------------------------------------------------------------------
 # C18  recipients
 
-def ring_cfg(keys, cross, maxesks, maxpres, invs='ProcWithinIntended'):
+def ring_cfg(keys, cross, maxesks, maxkeys, maxpws=1, maxsks=1, invs='ProcWithinIntended'):
     ks = '{' + ', '.join('"%s"' % k for k in keys) + '}'
     return f"""CONSTANTS
   Keys = {ks}
   CrossGroupCheck = {'TRUE' if cross else 'FALSE'}
   MaxEsks = {maxesks}
-  MaxPresented = {maxpres}
+  MaxKeys = {maxkeys}
+  MaxPws = {maxpws}
+  MaxSks = {maxsks}
 SPECIFICATION Spec
 INVARIANTS {invs}
 CHECK_DEADLOCK FALSE
@@ -515,16 +517,20 @@ CHECK_DEADLOCK FALSE
 
 @prop('C18', 'model_checking')
 def c18(run):
-    run.mc('MCRing', ring_cfg(['A', 'B'], True, 2, 1), name='mc', timeout=run.q(300, 1200))
+    run.mc('MCRing', ring_cfg(['A', 'B'], True, 2, 2), name='mc', timeout=run.q(600, 1200))
     if run.tier == 'thorough':
-        run.mc('MCRing', ring_cfg(['A', 'B', 'C'], True, 2, 1), name='mc3', timeout=2400)
+        run.mc('MCRing', ring_cfg(['A', 'B', 'C'], True, 2, 2, 2, 1), name='mc3', timeout=3000)
     run.mc('MCRing', ring_cfg(['A', 'B'], False, 1, 1), name='sens_no_cross_group_check', expect_violation='ProcWithinIntended')
-    g = run.mc('MCRing', ring_cfg(['A', 'B'], True, 2, 1, invs='GenCase'), name='gen', workers=1, count=False, timeout=1200)
+    g = run.mc('MCRing', ring_cfg(['A', 'B'], True, 2, 2, invs='GenCase'), name='gen', workers=1, count=False, timeout=1800)
     cases = g.cases
+    run.notes['configurations_in_bound'] = len(cases)
     if run.tier != 'thorough':
-        # quick: every configuration with <= 1 ESK, and a seeded 1-in-4 sample of the 2-ESK ones
+        # quick: every configuration with <= 1 ESK and <= 1 presented key; a seeded sample of the rest
         rnd = random.Random(run.seed)
-        cases = [c for c in cases if len(c['cfg']['esks']) <= 1 or rnd.random() < 0.25]
+        def keep(c):
+            small = len(c['cfg']['esks']) <= 1 and len(c['cfg']['keys']) <= 1
+            return small or rnd.random() < 0.2
+        cases = [c for c in cases if keep(c)]
     if run.replay and run.replay.get('source_case'):
         cases = [run.replay['source_case']]
     for i, c in enumerate(cases):
